@@ -60,11 +60,18 @@ def walk(
     if conns is None:
         conns = {**m.signals, **m.ports}
     for inst in m.instances.values():
+        if ":" in inst.name:
+            # Flattened names are ":"-joined hierarchical paths. Names including the separator would be ambiguous.
+            msg = f"Cannot flatten Instance `{inst.name}` in Module `{m.name}`: its name includes the path-separator `:`"
+            raise ValueError(msg)
         new_conns = {}
         new_parents = parents + [inst]
         for src_port_name, sig in inst.conns.items():
             if isinstance(sig, h.Signal):
                 key = sig.name
+                if ":" in key:
+                    msg = f"Cannot flatten Signal `{key}` in Module `{m.name}`: its name includes the path-separator `:`"
+                    raise ValueError(msg)
             elif isinstance(sig, (h.Slice, h.Concat)):
                 msg = f"Flattening `Slice` and `Concat` is not (yet) supported"
                 raise NotImplementedError(msg)
